@@ -326,7 +326,10 @@ class _Num:
         return wrap(V.s_abs(self.e))
 
     def __pow__(self, n):
-        n = unwrap(n)
+        try:
+            n = unwrap(n)
+        except TypeError:  # e.g. an ndarray exponent: let numpy broadcast element-wise
+            return NotImplemented
         if V.is_conc(n) and Fraction(n).denominator == 1:
             return wrap(V.s_ipow(self.e, int(n)))
         return wrap(V.s_pow(self.e, n))
